@@ -31,6 +31,13 @@ func (d *PlannerDrop) Process(ctx *shared.PlannerContext) (sql.ISelect, error) {
 	if err != nil {
 		return nil, err
 	}
+	// the dropped label no longer tells series apart (ParserPlanner does the same after changing labels)
+	cols, err = patchCol(cols, "fingerprint", func(object sql.SQLObject) (sql.SQLObject, error) {
+		return sql.NewRawObject(`cityHash64(arraySort(arrayZip(mapKeys(labels),mapValues(labels))))`), nil
+	})
+	if err != nil {
+		return nil, err
+	}
 	main.Select(cols...)
 	return main, nil
 }
